@@ -20,6 +20,9 @@ package seat_manager
 //@    && (forall k :: in(k, sm.seats) ==> 0 <= k && k < sm.max)
 //@    && SEATOK(sm, sm.dealer) && SEATOK(sm, sm.sb) && SEATOK(sm, sm.bb)
 
+// lock discipline (C18, concurrent Joins): every access to the seats happens with sm.mu held
+//@ guarded SeatManager.mu protects Seat, SeatManager.seats, SeatManager.dealer, SeatManager.sb, SeatManager.bb, map(map[int]*Seat)
+
 // number of playable / occupied seats among seat ids 0..k-1
 //@ fun CNT(sm *SeatManager, k int) int = ite(k <= 0, 0, CNT(sm, k - 1) + ite(PLAYABLE(sm.seats[k - 1]), 1, 0))
 //@ fun CNE(sm *SeatManager, k int) int = ite(k <= 0, 0, CNE(sm, k - 1) + ite(OCCUPIED(sm.seats[k - 1]), 1, 0))
@@ -57,6 +60,7 @@ package seat_manager
 // ---------------------------------------------------------------------------
 
 //@ func (*SeatManager).getSeat(sm, id) (res)
+//@   locked
 //@   props C18
 //@   requires WFSM(sm)
 //@   modifies nothing
@@ -64,6 +68,7 @@ package seat_manager
 //@   ensures !(0 <= id && id < sm.max) ==> res == nil
 
 //@ func (*SeatManager).getNormalizeSeats(sm, startID) (res)
+//@   locked
 //@   props C08 C17 C18
 //@   requires WFSM(sm) && 0 <= startID && (startID < sm.max || (sm.max == 0 && startID == 0))
 //@   modifies nothing
@@ -77,6 +82,7 @@ package seat_manager
 //@   loop 1 invariant forall j :: 0 <= j && j < sm.max && DIST(startID, j, sm.max) < i ==> seats[DIST(startID, j, sm.max)] == sm.seats[j]
 
 //@ func (*SeatManager).findActivePlayer(sm, seats) (res, idx)
+//@   locked
 //@   props C08 C17 C18
 //@   requires forall k :: 0 <= k && k < len(seats) ==> seats[k] != nil
 //@   modifies nothing
@@ -86,6 +92,7 @@ package seat_manager
 //@   loop 1 invariant forall k :: 0 <= k && k <= rangeindex ==> !PLAYABLE(seats[k])
 
 //@ func (*SeatManager).getPlayableSeatCount(sm) (res)
+//@   locked
 //@   props C08 C17 C18
 //@   requires WFSM(sm)
 //@   modifies nothing
@@ -93,6 +100,7 @@ package seat_manager
 //@   loop 1 invariant 0 <= i && i <= sm.max && count == CNT(sm, i)
 
 //@ func (*SeatManager).getNonEmptySeatCount(sm) (res)
+//@   locked
 //@   props C17 C18
 //@   requires WFSM(sm)
 //@   modifies nothing
@@ -100,6 +108,7 @@ package seat_manager
 //@   loop 1 invariant 0 <= i && i <= sm.max && count == CNE(sm, i)
 
 //@ func (*SeatManager).getPlayableSeat(sm) (res)
+//@   locked
 //@   props C17 C18
 //@   requires WFSM(sm)
 //@   modifies nothing
@@ -112,6 +121,7 @@ package seat_manager
 // ---------------------------------------------------------------------------
 
 //@ func (*SeatManager).nextDealer(sm) (res)
+//@   locked
 //@   props C17 C08 C18
 //@   requires WFSM(sm)
 //@   modifies sm.dealer, Seat.IsActive
@@ -140,6 +150,7 @@ package seat_manager
 //@ pred DEACTEMPTY() = forall s *Seat :: old(s.IsActive) && !s.IsActive ==> s.Player == nil
 
 //@ func (*SeatManager).renewSeatStatus(sm) (err)
+//@   locked
 //@   props C08 C18
 //@   requires WFSM(sm) && sm.dealer != nil && PLAYABLE(sm.dealer) && CNT(sm, sm.max) >= 2
 //@   modifies sm.sb, sm.bb, Seat.IsActive
@@ -169,6 +180,7 @@ package seat_manager
 //@   loop 2 invariant forall j :: 0 <= j && j < sm.max && DD(sm, j) <= DD(sm, sm.bb.ID) ==> (sm.seats[j].IsActive ==> old(sm.seats[j].IsActive))
 
 //@ func (*SeatManager).Next(sm) (err)
+//@   locks
 //@   props C08 C17 C18
 //@   requires WFSM(sm)
 //@   modifies sm.dealer, sm.sb, sm.bb, Seat.IsActive
@@ -219,6 +231,7 @@ package seat_manager
 //@ pred FREE(s) = !s.IsReserved && s.Player == nil
 
 //@ func (*SeatManager).join(sm, seatID, p) (res, err)
+//@   locked
 //@   props C18
 //@   requires WFSM(sm) && 0 <= seatID && seatID < sm.max && p != nil
 //@   modifies sm.seats[seatID].IsReserved, sm.seats[seatID].Player
@@ -227,6 +240,7 @@ package seat_manager
 //@   ensures old(sm.seats[seatID].Player) == nil ==> err == nil && res == seatID && sm.seats[seatID].Player == p && sm.seats[seatID].IsReserved
 
 //@ func (*SeatManager).leave(sm, seatID) (err)
+//@   locked
 //@   props C18
 //@   requires WFSM(sm)
 //@   modifies Seat.IsReserved, Seat.Player
@@ -237,6 +251,7 @@ package seat_manager
 //@             && (forall s *Seat :: s != sm.seats[seatID] ==> s.Player == old(s.Player) && s.IsReserved == old(s.IsReserved))
 
 //@ func (*SeatManager).getAvailableSeats(sm) (act, alt)
+//@   locked
 //@   props C18
 //@   requires WFSM(sm)
 //@   modifies nothing
@@ -249,6 +264,7 @@ package seat_manager
 //@   loop 1 invariant len(seats) == 0 && len(alternateSeats) == 0 ==> (forall i :: seen(i) ==> !FREE(sm.seats[i]))
 
 //@ func (*SeatManager).Join(sm, seatID, p) (res, err)
+//@   locks
 //@   props C18
 //@   requires WFSM(sm) && p != nil
 //@   modifies Seat.IsReserved, Seat.Player
@@ -270,6 +286,7 @@ package seat_manager
 //@   ensures [C18] CNP(sm, sm.max) == old(CNP(sm, sm.max)) + ite(err == nil, 1, 0)
 
 //@ func (*SeatManager).Leave(sm, seatID) (err)
+//@   locks
 //@   props C18
 //@   requires WFSM(sm)
 //@   modifies Seat.IsReserved, Seat.Player
@@ -282,6 +299,7 @@ package seat_manager
 //@   ensures [C18] CNP(sm, sm.max) == old(CNP(sm, sm.max)) - ite(err == nil, 1, 0)
 
 //@ func (*SeatManager).Seat(sm, seatID) (err)
+//@   locks
 //@   props C18
 //@   requires WFSM(sm)
 //@   modifies Seat.IsReserved
@@ -291,6 +309,7 @@ package seat_manager
 //@             && (forall s *Seat :: s != sm.seats[seatID] ==> s.IsReserved == old(s.IsReserved))
 
 //@ func (*SeatManager).Reserve(sm, seatID) (err)
+//@   locks
 //@   props C18
 //@   requires WFSM(sm)
 //@   modifies Seat.IsReserved
